@@ -14,11 +14,11 @@ ShapesOver4(envs, execs, sbomFull, files) ==
   ShapesOver(envs, execs, sbomFull, files) \cup
   { [env |-> "none", execd |-> {}, sbom |-> sbomFull, files |-> {}],
     [env |-> CHOOSE e \in envs : TRUE, execd |-> execs, sbom |-> NoSbom, files |-> {}] }
-MCShapes4 == ShapesOver4(EnvTok, ExecTok, [f \in Formats |-> CHOOSE s \in SbomTok : TRUE], FileTok)
+MCShapes4 == ShapesOver4(EnvTok, ExecTok \ MissingExec, [f \in Formats |-> CHOOSE s \in SbomTok : TRUE], FileTok)
 TraitTypesQuick == {<<TRUE, FALSE, TRUE>>, <<FALSE, TRUE, FALSE>>}
 TraitTypesAll == BOOLEAN \X BOOLEAN \X BOOLEAN
 
-MCShapes == ShapesOver(EnvTok, ExecTok, [f \in Formats |-> CHOOSE s \in SbomTok : TRUE], FileTok)
+MCShapes == ShapesOver(EnvTok, ExecTok \ MissingExec, [f \in Formats |-> CHOOSE s \in SbomTok : TRUE], FileTok)
 
 FlagsQuick == {<<TRUE, FALSE>>, <<FALSE, TRUE>>}
 FlagsAll   == BOOLEAN \X BOOLEAN
